@@ -21,7 +21,7 @@
    `serialization-partial` (a `serialization` list that is not a duplicate-free enumeration of all
    constructor attributes); C17_statement is the unguarded statement, refuted below. *)
 From Coq Require Import ZArith NArith Bool List String.
-From PcoreV Require Import Model.Base Model.Obj Proofs.ObjProofs Proofs.ObjDefine.
+From PcoreV Require Import Model.Base Model.Obj Proofs.ObjProofs Proofs.ObjDefine Model.ObjNest Proofs.ObjNestProofs.
 Import ListNotations.
 
 (* ---- the layout: every declared constructor attribute (own, inherited, overriding — collectAttributes)
@@ -344,3 +344,86 @@ Proof.
   split; [exact (accepted_single _ _ _ E)|].
   vm_compute in E. inversion E; subst ts. clear E. vm_compute. repeat split; try reflexivity; discriminate.
 Qed.
+
+(* ---- attributes whose type is, or contains, another Object type (Model/ObjNest.v: typeAndInit for an Object type,
+        coerceTo, the merge of the coerced entries in the named creator, the positional creator after the fix: 0abd0ef).
+        Types: Integer, String, Optional, Array, Hash[String, .], Struct, Object types (referred to by containing their
+        constructor attributes: any nesting depth, no self reference); `nwf`: distinct names, declared values well typed.
+        Object values are in normal form (type name + the value of every constructor attribute), so that two objects are
+        Equal exactly when their normal forms are the same. ---- *)
+
+(* Each attribute reads back an INSTANCE of its declared type: whatever either constructor builds - from instances, from
+   nested init-hashes at any depth, or from a mixture - is an instance of the Object type, i.e. holds at every position an
+   instance of that attribute's type (never the raw init-hash) *)
+Theorem C17_nested_constructed_is_instance :
+  forall n attrs args v, nwf (NObj n attrs) = true -> nnew n attrs args = NOk v -> ninst (NObj n attrs) v = true.
+Proof. exact nnew_instance. Qed.
+Print Assumptions C17_nested_constructed_is_instance.
+
+Theorem C17_nested_named_is_instance :
+  forall n attrs h v, nwf (NObj n attrs) = true -> named_new n attrs h = NOk v -> ninst (NObj n attrs) v = true.
+Proof. exact named_new_instance. Qed.
+Print Assumptions C17_nested_named_is_instance.
+
+(* coerceTo: the result is an instance of the type, and an instance is returned as it is (so giving the instance by name is
+   giving it positionally) *)
+Theorem C17_nested_coerce_gives_instance :
+  forall t v v', nwf t = true -> coerce t v = Some v' -> ninst t v' = true.
+Proof. exact coerce_gives_instance. Qed.
+Print Assumptions C17_nested_coerce_gives_instance.
+
+Theorem C17_nested_coerce_keeps_instance :
+  forall t v, ninst t v = true -> coerce t v = Some v.
+Proof. exact coerce_instance_id. Qed.
+Print Assumptions C17_nested_coerce_keeps_instance.
+
+(* the hash the named creator hands to InitFromHash (`oh.Merge(WrapHash(el))`) holds under every name the COERCED value when
+   there is one, the given value otherwise *)
+Theorem C17_nested_merge_coerced_wins :
+  forall h el k, nhget (nhmerge h el) k = match nhget el k with Some v => Some v | None => nhget h k end.
+Proof. exact nhget_merge. Qed.
+Print Assumptions C17_nested_merge_coerced_wins.
+
+(* the type a named argument is checked against (typeAndInit) admits every instance of the declared type *)
+Theorem C17_nested_init_type_admits_instances :
+  forall t v, ninst t v = true -> ninst_init t v = true.
+Proof. exact ninst_ninst_init. Qed.
+Print Assumptions C17_nested_init_type_admits_instances.
+
+(* PARTIAL: not proved for all types and values, evaluated on every constructed object of every run by the correspondence
+   (Corr/CorrC17.v nested_check): coercing the full init-hash form of an instance gives the instance back
+   (forall t v, nwf t -> ninst t v -> coerce t (to_init t v) = Some v), hence the named construction from nested init-hashes
+   equals the one from instances and the positional one; and InitHash followed by the named creator gives the object back. *)
+
+Definition ex_inner : nty :=
+  NCons (s2l "x") None NInt (NCons (s2l "y") (Some (NVStr (s2l "y"))) NStr NNil).
+Definition ex_outer : nty :=
+  NCons (s2l "i") None (NObj (s2l "Inner") ex_inner) (NCons (s2l "n") (Some (NVInt 0)) NInt NNil).
+Definition ex_deep : nty :=
+  NCons (s2l "o") None (NObj (s2l "Outer") ex_outer)
+   (NCons (s2l "k") None (NArr (NOpt (NObj (s2l "Outer") ex_outer))) NNil).
+
+Example C17_nested_nonvacuous :
+  let in1 := NVObj (s2l "Inner") [NVInt 1; NVStr (s2l "y")] in
+  let out1 := NVObj (s2l "Outer") [in1; NVInt 0] in
+  let out5 := NVObj (s2l "Outer") [in1; NVInt 5] in
+  let ih := NVHash [(s2l "x", NVInt 1)] in
+  nwf (NObj (s2l "Deep") ex_deep) = true /\
+  (* positional with the instance, positional with the init-hash (fix: 0abd0ef), by name with the instance, by name with the
+     init-hash: one object *)
+  nnew (s2l "Outer") ex_outer [in1] = NOk out1 /\
+  nnew (s2l "Outer") ex_outer [ih; NVInt 5] = NOk out5 /\
+  nnew (s2l "Outer") ex_outer [NVHash [(s2l "i", in1)]] = NOk out1 /\
+  nnew (s2l "Outer") ex_outer [NVHash [(s2l "n", NVInt 5); (s2l "i", ih)]] = NOk out5 /\
+  (* two levels, below Array and Optional, mixed *)
+  nnew (s2l "Deep") ex_deep [NVHash [(s2l "o", NVHash [(s2l "i", ih)]);
+                                     (s2l "k", NVArr [NVUndef; out5; NVHash [(s2l "i", ih); (s2l "n", NVInt 5)]])]]
+    = NOk (NVObj (s2l "Deep") [out1; NVArr [NVUndef; out5; out5]]) /\
+  ninit_hash ex_outer [in1; NVInt 0] = [(s2l "i", in1)] /\
+  coerce (NObj (s2l "Outer") ex_outer) (to_init (NObj (s2l "Outer") ex_outer) out5) = Some out5 /\
+  (* an ill-typed nested init-hash is rejected by the dispatcher; a missing required attribute too *)
+  nnew (s2l "Outer") ex_outer [NVHash [(s2l "i", NVHash [(s2l "x", NVStr (s2l "a"))])]] = NIllegalArguments /\
+  nnew (s2l "Outer") ex_outer [NVHash [(s2l "i", NVHash [])]] = NIllegalArguments /\
+  (* the merge in the other direction (seeded change C17-m9) would keep the raw init-hash *)
+  nhget (nhmerge [(s2l "i", in1)] [(s2l "i", ih)]) (s2l "i") = Some ih.
+Proof. vm_compute. repeat split; reflexivity. Qed.
